@@ -76,24 +76,80 @@ def case_term(c):
         m = SMODE[mode] if mode != -1 else "SRaw"
         ss = "[" + ";".join(bl(s) for s in c.get("strs", [])) + "]"
         return "(check_string %s %s %s %s %s)" % (d, cc, m, ss, real)
-    if k == "record":
+    if k in ("record", "rows"):
         return None     # direct oracle only
+    if k == "col":
+        if not c.get("segs"):
+            return None
+        return col_term(c)
     if k == "frame":
         return "(check_frame %s %s %d %s %s)" % (d, cc, c["typ"], bl(c.get("payload", "")), real)
     raise ValueError("kind %r" % k)
+
+
+CT = {"int": "CInt", "float": "CFloat", "bool": "CBool", "string": "CString"}
+
+
+def bits_lsb(bs):
+    return [(b >> i) & 1 for b in bs for i in range(8)]
+
+
+def boolsl(bits):
+    return "[" + ";".join("true" if b else "false" for b in bits) + "]"
+
+
+def seg_mode(real, nrows):
+    """header mode of a real segment (with the bits the real bitmap holds around the segment's own bits)"""
+    tag = real[0]
+    if 16 < tag < 21:
+        return "HOne"
+    if 30 < tag < 35:
+        return "HFull"
+    if 40 < tag < 45:
+        return "HEmpty"
+    bmlen = int.from_bytes(real[1:5], "big")
+    bm = real[5:5 + bmlen]
+    off = int.from_bytes(real[5 + bmlen:9 + bmlen], "big")
+    bits = bits_lsb(bm)
+    if off + nrows > len(bits):
+        raise ValueError("bitmap shorter than the segment")
+    return "(HBitmap %s %s)" % (boolsl(bits[:off]), boolsl(bits[off + nrows:]))
+
+
+def col_term(c):
+    """sum of check_seg over every data-column segment and every time segment of one chunk"""
+    n, lim = c["typ"], c["lim"]
+    terms = []
+    cols = c["cols"] + [{"t": "int", "nulls": [0] * n, "vals": c["vals"]}]
+    for ci, col in enumerate(cols):
+        for j, hx in enumerate(c["segs"][ci]):
+            lo, hi = j * lim, min((j + 1) * lim, n)
+            real = bytes.fromhex(hx)
+            rows = []
+            for i in range(lo, hi):
+                if col["nulls"][i]:
+                    rows.append("None")
+                elif col["t"] == "string":
+                    rows.append("Some %s" % bl(col["strs"][i]))
+                elif col["t"] == "bool":
+                    rows.append("Some [%d]" % col["vals"][i])
+                else:
+                    rows.append("Some (le8 %d)" % col["vals"][i])
+            terms.append("check_seg %s %s [%s] %s" % (CT[col["t"]], seg_mode(real, hi - lo), ";".join(rows), bl(hx)))
+    return "(" + " + ".join(terms) + ")"
 
 
 def f64(u):
     return struct.unpack("<d", struct.pack("<Q", u))[0]
 
 
-def sig_gorilla(c):
-    """C07-gorilla-error-path: float column without NaN, more than 4 values, whose left-to-right float64 sum of
-    values[1:] is NaN (needs +Inf and -Inf, or an overflowed sum meeting the opposite infinity)."""
-    if c["k"] != "float" or c.get("oracle") != "encode-panic":
-        return False
-    fs = [f64(u) for u in c["vals"]]
-    if len(fs) <= 4 or any(math.isnan(x) for x in fs):
+def gorilla_sum_case(us):
+    """root cause of C07-gorilla-error-path, exactly: a float64 block of more than 4 values that holds NO NaN at all
+    (on the unchanged tree a block with a NaN anywhere is routed to snappy and never reaches the gorilla encoder), holds
+    an infinity, and whose left-to-right float64 sum of values[1:] is NaN (+Inf meeting -Inf) - the only way the tsm1
+    encoder can report an error for a NaN-free input."""
+    fs = [f64(u) for u in us]
+    if len(fs) <= 4 or any(math.isnan(x) for x in fs) or not any(math.isinf(x) for x in fs):
         return False
     s = 0.0
     for x in fs[1:]:
@@ -101,9 +157,38 @@ def sig_gorilla(c):
     return math.isnan(s)
 
 
+def float_segments(c):
+    """non-null float values of each segment of the float column of a `col` case"""
+    out = []
+    for col in c.get("cols", []):
+        if col["t"] == "float":
+            n, lim = c["typ"], c["lim"]
+            for lo in range(0, n, lim):
+                out.append([col["vals"][i] for i in range(lo, min(lo + lim, n)) if not col["nulls"][i]])
+    return out
+
+
+def sig_gorilla(c):
+    """C07-gorilla-error-path: the float block encoder panics on a NaN-free block whose sum of values[1:] is NaN."""
+    if c.get("oracle") != "encode-panic" or "slice bounds out of range [:1] with capacity 0" not in c.get("panic", ""):
+        return False
+    if c["k"] == "float":
+        return gorilla_sum_case(c["vals"])
+    if c["k"] == "col":     # the panic aborts the whole chunk: some float segment must be a root-cause block
+        return any(gorilla_sum_case(seg) for seg in float_segments(c))
+    return False
+
+
 def sig_negzero(c):
     """C07-negzero-same: float column of more than 4 values, each +0.0 or -0.0, at least one -0.0, stored in
     same-value mode and read back as all +0.0."""
+    if c["k"] == "col" and c.get("oracle") == "roundtrip-differs" and c.get("badcol") == "float":
+        segs = float_segments(c)
+        j = c.get("badseg", -1)
+        if not (0 <= j < len(segs)):
+            return False
+        v = segs[j]
+        return len(v) > 4 and all(x in (0, M63) for x in v) and any(x == M63 for x in v)
     if c["k"] != "float" or c.get("oracle") != "roundtrip-differs" or c.get("mode") != 4:
         return False
     v = c["vals"]
@@ -119,11 +204,19 @@ def sig_wal_header(c):
             and set(c.get("pref", [])) <= {5, 1000005} and len(c.get("pref", [])) > 0)
 
 
+def has_nan(c):
+    return any(math.isnan(f64(u)) for u in c.get("vals", []))
+
+
 def nontrivial(c):
     """a case is non-trivial when the implementation produced a block in a compressed / structured mode (not the
     uncompressed fall-back, not an empty block) or when a frame had at least 5 prefixes tried"""
     if c["k"] == "record":
         return c.get("typ", 0) > 0
+    if c["k"] == "col":
+        return c.get("typ", 0) > 0
+    if c["k"] == "rows":
+        return c.get("npref", 0) > 10
     if c["k"] == "frame":
         return c.get("npref", 0) >= 5
     if c["k"] == "bool":
@@ -193,7 +286,7 @@ def evaluate(ck, cases):
 
 
 def slim(c):
-    d = {k: v for k, v in c.items() if k not in ("hex", "c", "d", "dv")}
+    d = {k: v for k, v in c.items() if k not in ("hex", "c", "d", "dv", "segs")}
     if len(c.get("hex", "")) <= 400:
         d["hex"] = c.get("hex", "")
     return d
@@ -208,9 +301,9 @@ def classify(ck, cases, codes, stats):
         if orc:
             # the property statement itself fails on the real code
             fid = None
-            if sig_gorilla(c) and code == 0:
+            if sig_gorilla(c) and (code == 0 or c["k"] == "col"):
                 fid = "C07-gorilla-error-path"
-            elif sig_negzero(c) and code is not None and (code >> 4) == 0:
+            elif sig_negzero(c) and code is not None and ((code >> 4) == 0 or (c["k"] == "col" and code == 0)):
                 fid = "C07-negzero-same"
             elif sig_wal_header(c) and code == 0:
                 fid = "C07-wal-header-only-tail"
@@ -256,13 +349,13 @@ def main(ck):
     binp = ck.go_build("./cmd/c07", "c07")
     if not binp:
         return
-    n = 600 if ck.tier == "quick" else 12000
+    n = 800 if ck.tier == "quick" else 16000
     extra = [os.path.join(ck.verif, "corpus", PID)]
     if getattr(ck, "replay", None):
         rp = json.load(open(ck.replay))
         cf = os.path.join(ck.work, "replay.case")
         open(cf, "w").write(json.dumps({k: v for k, v in rp.get("case", {}).items()
-                                        if k in ("k", "vals", "strs", "algo", "typ", "payload")}) + "\n")
+                                        if k in ("k", "vals", "strs", "algo", "typ", "payload", "lim", "cols", "seed")}) + "\n")
         n, extra = 0, [cf]
     cases, err = run_harness(ck, binp, n, extra)
     if err:
@@ -306,7 +399,7 @@ def main(ck):
         sk = "%s/%s" % (c["k"], c.get("shape"))
         shapes[sk] = shapes.get(sk, 0) + 1
         if nontrivial(c):
-            seen.add(json.dumps([c["k"], c.get("vals"), c.get("strs"), c.get("algo"), c.get("typ"), c.get("payload"), c.get("shape")]))
+            seen.add(json.dumps([c["k"], c.get("vals"), c.get("strs"), c.get("algo"), c.get("typ"), c.get("payload"), c.get("shape"), c.get("cols"), c.get("seed")]))
     ck.cov["evaluations"] = len(cases)
     ck.cov["distinct_nontrivial"] = len(seen)
     ck.cov["traces_validated_against_impl"] = sum(1 for i, c in enumerate(cases) if codes[i] is not None) - len(mism)
